@@ -5,6 +5,7 @@ from collections.abc import Callable
 from dataclasses import dataclass, field
 from typing import Any
 
+from xsdata.exceptions import ParserError
 from xsdata.formats.dataclass.parsers import DictDecoder
 from xsdata.formats.types import T
 
@@ -79,7 +80,12 @@ class JsonParser(DictDecoder):
         Returns:
             An instance of the specified class representing the parsed content.
         """
-        data = self.load_json(source)
+        try:
+            data = self.load_json(source)
+        except ValueError as e:
+            # json.JSONDecodeError, UnicodeDecodeError
+            raise ParserError(e)
+
         return self.decode(data, clazz)
 
     def load_json(self, source: Any) -> dict | list:
